@@ -57,15 +57,26 @@ def validate_contract_dict(  # noqa: WPS231 too much cognitive complexity
                 _check_clause(clause, f"{contract_name}:{kw}{index}")
 
 
+def _is_number(value: object) -> bool:
+    return isinstance(value, (int, float)) and not isinstance(value, bool)
+
+
 def _check_clause(clause: dict, clause_id: str) -> None:
+    if not isinstance(clause, dict):
+        raise ContractFormatError(f"{clause_id} should be a dictionary")
     keywords = ["constant", "coefficients"]
     for kw in keywords:
         if kw not in clause:
-            ContractFormatError(f'Keyword "{kw}" not found in {clause_id}')
+            raise ContractFormatError(f'Keyword "{kw}" not found in {clause_id}')
         value = clause[kw]
         if kw == "coefficients":
             if not isinstance(value, dict):
                 raise ContractFormatError(f'The "{kw}" in {clause_id} should be a dictionary')
+            for coefficient in value.values():
+                if not _is_number(coefficient):
+                    raise ContractFormatError(f'The "{kw}" in {clause_id} should be numbers')
+        elif not _is_number(value):
+            raise ContractFormatError(f'The "{kw}" in {clause_id} should be a number')
 
 
 float_closeness_relative_tolerance: float = 1e-5
